@@ -22,7 +22,7 @@ func c14Oracle(sp *Spec, x *X, res *mcrt.Result) (string, string) {
 	}
 	// late getters: every bar stopped; unfinished bars aborted
 	for _, c := range x.Calls {
-		if c.Inv < x.WaitStep || !strings.HasPrefix(c.Op, "get") {
+		if c.Inv < x.WaitStep || !strings.HasPrefix(c.Op, "get") || c.Res == "skipped" {
 			continue
 		}
 		if !strings.Contains(c.Res, "run=false") {
